@@ -75,7 +75,7 @@ def run_a(cfg, ctx, letters, conn):
 
 def job_a(j):
     cfg, depth, devs = j
-    letters = letters_for(cfg['transport'])
+    letters = cfg.get('letters') or letters_for(cfg['transport'])
     conn = CONNECT if cfg['transport'] == 'tcp' and cfg.get('conn') else ['ok']
     st = Stats()
     vio = {}
@@ -516,6 +516,16 @@ def run(tier, seed, rep):
                             # several requests per call: the first request gets the full product at R=0, deeper
                             # positions are reached by deviation bounding
                             ja.append((cfg, 3 * (R + 1), 1 if tier == 'quick' else 2))
+    # answers cut off after every number of bytes 1..9 (inside the header, right after the function code, inside the data):
+    # whatever the receive callback makes of them, the call ends with a library exception or the retried value
+    for fam in ('ET', 'DT', 'ES'):
+        for tr in ('udp', 'tcp'):
+            if fam == 'ES' and tr == 'tcp':
+                continue
+            for ka in (False, True):
+                for op in ('read_setting', 'write_setting'):
+                    ja.append((dict(family=fam, op=op, transport=tr, ka=ka, T=1, R=1, conn=False,
+                                    letters=[f'cut{n}' for n in range(1, 10)] + ['valid', 'drop']), 2, None))
     k = seed % len(ja)
     ja = ja[k:] + ja[:k]
     for st in pmap(job_a, ja):
